@@ -154,3 +154,28 @@ def standin(name="reconciliation:thl-exh-vs-brute-force", only=None):
     sd = Standin(name, run, describe="bounded: <= 5 object leaves, <= 4 species leaves")
     sd.replay = check
     return sd
+
+
+# ---- recorded defect F-COHERENCE (outside the region spe <= dup + 2*floss the tables price a node placed at the LCA of two separated
+# children as the cheaper duplication while the evaluator charges the speciation): the listed witness inputs are replayed on every run
+KNOWN_WITNESSES = [
+    {"id": "F-COHERENCE witness 1", "obj": ((), ((), ())), "sp": ((), ()), "leafmap": [1, 1, 2], "costs": [3, 0, 1, 0, 1], "only": "thl"},
+    {"id": "F-COHERENCE witness 2", "obj": ((), ((), ((), ()))), "sp": ((), ()), "leafmap": [1, 2, 1, 2], "costs": [4, 0, 1, 0, 1], "only": "thl"},
+]
+
+
+def witness_standin(name="reconciliation:F-COHERENCE-witnesses", ids=None):
+    def run(tier, rng, src_root):
+        viol = []
+        for r in KNOWN_WITNESSES:
+            if ids is not None and r["id"] not in ids:
+                continue
+            w = check({k: v for k, v in r.items() if k != "id"}, src_root)
+            if w:
+                viol.append((f"[{r['id']}] {w}", r))
+        return dict(evaluations=len(KNOWN_WITNESSES), distinct_nontrivial=len(KNOWN_WITNESSES), violations=viol, samples=KNOWN_WITNESSES[:1],
+                    rule="replay of the recorded witness inputs of known finding F-COHERENCE (cost vectors outside spe <= dup + 2*floss)")
+
+    sd = Standin(name, run, describe="the listed witness inputs only")
+    sd.replay = lambda recipe, src_root: check({k: v for k, v in recipe.items() if k != "id"}, src_root)
+    return sd
